@@ -280,6 +280,7 @@ func c01Extra(r *core.Run) {
 		return len(reg.problems) == 0
 	}
 	c01R10(r)
+	c01R11(r)
 
 	r.Check("D4/K3/registry-check-then-insert-atomic", "a breaker is inserted into the named registry (directly or through an inserting helper) only on the not-found outcome of a lookup of the same name made under the write lock, and that lock is not released between the lookup and the insertion – functions that replace an entry on purpose (no lookup, no breaker handed back) excepted [quantifier 'via the named registry, from any number of goroutines, for every breaker name': otherwise concurrent first users of a name get different breakers, the later insertion replaces the earlier one, and the outcomes of one name no longer accumulate in one window – 'rejects only when (total−5) exceeds 1.5 × successes' is evaluated on a partial history]", func(o *core.O) {
 		if !anchors(o) {
